@@ -107,6 +107,16 @@ def gen_allowed(r):
     return {'kind': 'table', 'ranges': [[lo, hi] for lo, hi in items]}
 
 
+def inject_cr(r, c):
+    """put a lone CR between two non-blank characters of some line (if there is such a place)"""
+    spots = [(k, i) for k, l in enumerate(c['lines']) for i in range(1, len(l))
+             if not l[i - 1].isspace() and not l[i].isspace() and l[i - 1] != '\r' and l[i] != '\r']
+    if spots:
+        k, i = r.choice(spots)
+        c['lines'][k] = c['lines'][k][:i] + '\r' + c['lines'][k][i:]
+    return c
+
+
 def gen_case(r, tier):
     n_lines = r.choice([0, 1, 1, 2, 2, 3, 3, 4, 5, 6, 8])
     marker_p = r.choice([0.0, 0.3, 0.5, 0.8])
@@ -118,6 +128,14 @@ def gen_case(r, tier):
         opts = [r.choice([0, 1, 1, 2, 3, 5]), r.choice([0, 1, 1, 2, 3, 5])]
     else:
         opts = None
+    if r.random() < 0.12 and lines:
+        # old-Mac / stray carriage returns: a lone CR (or CRLF) inside what the generator calls a line is a line
+        # break of the corpus for Python's text layer (seeded change C15_b opened the corpus with newline='\n')
+        for _ in range(r.randint(1, 3)):
+            k = r.randrange(len(lines))
+            l = lines[k]
+            pos = r.randint(0, len(l))
+            lines[k] = l[:pos] + r.choice(['\r', '\r', '\r\n']) + l[pos:]
     c = {'lines': lines, 'trailing_newline': r.random() < 0.8,
          'allowed': gen_allowed(r),
          'context': r.choice(['document', 'document', 'line']),
@@ -126,6 +144,16 @@ def gen_case(r, tier):
          'lower_case': r.random() < 0.5, 'remove_duplicates': r.random() < 0.5,
          'exists': r.random() < 0.06}
     return c
+
+
+def eff_lines(c):
+    """the lines Python's text layer yields for the corpus file the harness writes ('\\n'.join(lines), universal
+    newlines): a lone CR or a CRLF inside a generated line is a line break of the corpus"""
+    text = '\n'.join(c['lines']) + ('\n' if c.get('trailing_newline', True) else '')
+    parts = text.replace('\r\n', '\n').replace('\r', '\n').split('\n')
+    if parts and parts[-1] == '':
+        parts.pop()
+    return parts
 
 
 def tables(c):
@@ -147,7 +175,7 @@ def table_ok(c):
     _, lower = tables(c)
     m = dict(lower)
     for l in c['lines']:
-        if '\n' in l or '\r' in l or 'Σ' in l:
+        if '\n' in l or 'Σ' in l:
             return False
         if ''.join(m.get(ch, ch) for ch in l) != l.lower():
             return False
@@ -167,6 +195,7 @@ def model_request(c):
     ws, lower = tables(c)
     q = {k: c[k] for k in ('lines', 'allowed', 'context', 'event', 'cue', 'lower_case', 'remove_duplicates',
                             'exists')}
+    q['lines'] = eff_lines(c)
     q['options'] = c['options'] if c['options'] is not None else []
     q['op'] = 'create_events'
     q['ws'] = ws
@@ -486,6 +515,8 @@ def run(rep, pool, driver, tier):
                 rep.count('window_longer_than_a_line')
         if any(ord(ch) > 127 for l in c['lines'] for ch in l):
             rep.count('non_ascii_corpus')
+        if any('\r' in l for l in c['lines']):
+            rep.count('corpus_with_carriage_return')
         if any(ch in l for l in c['lines'] for ch in '#_\t'):
             rep.count('special_symbols_in_corpus')
         if any(not l.strip() for l in c['lines']):
